@@ -82,6 +82,10 @@ def CBLibPolicy.ofJ (p : J) : CBLibPolicy :=
   ⟨p.iget "slidingWindowSize" 100, p.iget "permittedNumberOfCallsInHalfOpenState" 10, p.iget "minimumNumberOfCalls" 100⟩
 def MqttRule.ofJ (r : J) : Option MqttRule :=
   some ⟨if r.has "when" then some ⟨(r.get "when").sget "packetType"⟩ else none, r.sget "pipeline"⟩
+/-- `validator.Spec`: the struct is never the zero value (it embeds the filter's name), the signer spec is
+present iff the document has `signature`; only the number of access keys is read -/
+def VSpec.ofJ (j : J) : VSpec :=
+  ⟨false, if j.has "signature" then some ⟨((j.get "signature").oget "accessKeys").length⟩ else none⟩
 def MqttSpec.ofJ (j : J) : MqttSpec := ⟨(j.aget "rules").map MqttRule.ofJ⟩
 
 end EgVerif.SpecGuards
